@@ -15,6 +15,11 @@
             per item the event it stands for and the ResourceIds behind its `objects` and
             `snapshots` elements, and the file.
 
+   The model is evaluated THROUGH jq.ApplyFilter's copy (C09_Model, last part): every object of a
+   case is deep-copied, the jq oracle of the case ([asked]: the answer of /usr/bin/jq for the object
+   as it was created in the cluster / handed to applyFilter) is asked about the copy.  The Spec
+   predicates judge the case as it is: the oracle's answer for that very object.
+
    Evaluated by vm_compute in the generated cases files. *)
 From Verif Require Import Common Json C09_Model C09_Spec.
 
@@ -27,9 +32,9 @@ Inductive mobs := MList (out : option json) | MFlow (files : list fobs) | MHook 
 
 Definition model_obs (c : case) : mobs :=
   match c with
-  | CList v cs _ => MList (render_list v cs)
-  | CFlow f _ => MFlow (run_flow f)
-  | CHook hc _ => MHook (run_hook hc)
+  | CList v cs _ => MList (render_list v (map ctx_run cs))
+  | CFlow f _ => MFlow (run_flow (flow_run f))
+  | CHook hc _ => MHook (run_hook (hcase_run hc))
   end.
 
 Definition ids_eqb : list bytes -> list bytes -> bool := list_eqb bytes_eqb.
@@ -49,14 +54,25 @@ Definition hobs_eqb (a b : hobs) : bool :=
   list_eqb hitem_eqb (ho_items a) (ho_items b)
   && option_eqb json_eqb (ho_out a) (ho_out b).
 
-Definition agrees (c : case) : bool :=
+(* the objects of the case stand for Go map trees (one value per key, keys printed sorted): the
+   domain of the `_via_copy` theorems; the harness prints every object so *)
+Definition canonical (c : case) : bool :=
   match c with
-  | CList v cs out => option_eqb json_eqb (render_list v cs) out
-  | CFlow f (Some files) => list_eqb fobs_eqb (run_flow f) files
+  | CList _ cs _ => forallb ctx_canon cs
+  | CFlow f _ => flow_canon f
+  | CHook hc _ => hcase_canon hc
+  end.
+
+Definition agrees (c : case) : bool :=
+  canonical c &&
+  match c with
+  | CList v cs out => option_eqb json_eqb (render_list v (map ctx_run cs)) out
+  | CFlow f (Some files) => list_eqb fobs_eqb (run_flow (flow_run f)) files
   | CFlow f None => false
-  | CHook hc (Some o) => hobs_eqb (run_hook hc) o
+  | CHook hc (Some o) => hobs_eqb (run_hook (hcase_run hc)) o
   | CHook hc None => false
   end.
+
 
 Definition holds (c : case) : bool :=
   match c with
